@@ -1,9 +1,11 @@
 """C11 - introspection describes exactly the schema that was supplied."""
 import copy
+import dataclasses
 import json
 import os
 import shutil
 import tempfile
+import types
 
 from tfv import core, gqlparse
 from tfv.core import Violation, run_async
@@ -12,7 +14,7 @@ from tfv.impl import Harness, clean_registry
 from tfv.model import BUILTIN_SCALARS, canon, kind_of, possible_types, print_string, print_value, ty, ty_str
 from tfv.ref import CODECS
 
-from tartiflette import Directive, Scalar, create_engine
+from tartiflette import Directive, Engine, Scalar, create_engine
 
 ID = "C11"
 LEVEL = "exploration"
@@ -577,16 +579,26 @@ def build_once(spec, name, second=False):
             from tfv.impl import make_scalar
             Scalar(n, schema_name=name)(make_scalar(CODECS[d.get("codec", "tagged")]))
     for n in M.get("directives") or {}:
-        Directive(n, schema_name=name)(type("D_" + n, (), {}))
+        Directive(n, schema_name=name)(directive_implementation(spec.get("dimpl", "class"), n))
     sdl_arg = spec["sdl"]
     tmp = None
+    enc = file_encoding(spec)
+    how = (spec.get("how") or ["create", "create"])[1 if second else 0]
     try:
         if spec["mode"] != "string":
             sdl_arg, tmp = materialise_files(spec)
         try:
-            engine = run_async(create_engine(sdl_arg, schema_name=name, sdl_file_encoding="utf-8"))
+            if how == "create":
+                engine = run_async(create_engine(sdl_arg, schema_name=name, sdl_file_encoding=enc))
+            elif how == "ctor_then_cook":  # configuration on the constructor, cooked later without repeating it
+                engine = Engine(sdl_arg, schema_name=name, sdl_file_encoding=enc)
+                run_async(engine.cook())
+            else:  # everything handed to cook()
+                engine = Engine()
+                run_async(engine.cook(sdl_arg, schema_name=name, sdl_file_encoding=enc))
         except Exception as e:  # noqa
-            raise Violation(spec, "valid SDL refused%s: %r\nmode=%s\nSDL:\n%s" % (" when built a second time in the same process" if second else "", e, spec["mode"], spec["text"]), tag="refused")
+            raise Violation(spec, "valid SDL refused%s: %r\nmode=%s encoding=%s how=%s directive implementations=%s\nSDL:\n%s" % (
+                " when built a second time in the same process" if second else "", e, spec["mode"], enc, how, spec.get("dimpl", "class"), spec["text"]), tag="refused")
     finally:
         if tmp:
             shutil.rmtree(tmp, ignore_errors=True)
@@ -621,6 +633,35 @@ def build_once(spec, name, second=False):
     return []
 
 
+def file_encoding(spec):
+    """the encoding the SDL files are stored in and declared with; latin-1 only if the text fits"""
+    enc = spec.get("encoding") or "utf-8"
+    if enc == "latin-1":
+        try:
+            spec["text"].encode("latin-1")
+        except UnicodeEncodeError:
+            return "utf-16"
+    return enc
+
+
+@dataclasses.dataclass
+class ConfiguredDirective:
+    """a directive implementation carrying configuration: dataclass instances compare by value and are unhashable"""
+
+    name: str
+    options: dict = dataclasses.field(default_factory=dict)
+
+
+def directive_implementation(kind, n):
+    if kind == "class":
+        return type("D_" + n, (), {})
+    if kind == "instance":
+        return type("D_" + n, (), {})()
+    if kind == "dataclass":
+        return ConfiguredDirective(n)
+    return types.SimpleNamespace(name=n)
+
+
 def materialise_files(spec):
     d = tempfile.mkdtemp(prefix="tfv-c11-")
     mode = spec["mode"]
@@ -628,7 +669,7 @@ def materialise_files(spec):
     for rel, content in spec["files"]:
         p = os.path.join(d, rel)
         os.makedirs(os.path.dirname(p), exist_ok=True)
-        with open(p, "w", encoding="utf-8") as f:
+        with open(p, "w", encoding=file_encoding(spec)) as f:
             f.write(content)
         paths.append(p)
     if mode == "file":
@@ -687,7 +728,13 @@ def render(c, M, pieces, st, cov=(), mode=None, shuffle=True):
 
 def make_case(c):
     M, pieces, cov = make_pieces(c)
-    return render(c, M, pieces, Style(c), cov)
+    spec = render(c, M, pieces, Style(c), cov)
+    spec["encoding"] = c.weighted([(6, "utf-8"), (2, "utf-16"), (2, "latin-1")])
+    hows = ["create", "ctor_then_cook", "cook_args"]
+    spec["how"] = [c.weighted([(5, "create"), (3, "ctor_then_cook"), (2, "cook_args")]), c.choice(hows)]
+    spec["dimpl"] = c.weighted([(5, "class"), (2, "instance"), (2, "dataclass"), (1, "namespace")])
+    spec["tags"] = list(spec["tags"]) + ["how:" + spec["how"][0], "dimpl:" + spec["dimpl"]] + (["encoding:" + file_encoding(spec)] if spec["mode"] != "string" else [])
+    return spec
 
 
 def features(spec):
